@@ -27,13 +27,21 @@ type c07Case struct {
 	W      int      `json:"w,omitempty"`      // weight scheme, see c07Weights
 	Cpus   int      `json:"cpus"`
 	Ranges []int    `json:"ranges,omitempty"` // r1min r1max r2min r2max
+	// Prior: rows of an alignment whose matrix is computed first with the SAME model object (the way
+	// compute distance treats a multi-alignment input and build distboot its replicates): the matrix of
+	// Seqs must not depend on it
+	Prior []string `json:"prior,omitempty"`
 }
 
 func (cs c07Case) op() string {
+	o := cs.Model
 	if cs.Alpha > 0 {
-		return cs.Model + "+gamma"
+		o += "+gamma"
 	}
-	return cs.Model
+	if len(cs.Prior) > 0 {
+		o += "+model-reused" // the payload carries the earlier call: replayable on its own
+	}
+	return o
 }
 
 // c07Weights: 0 = nil (no weights), 1 = all 1, 2 = 1,2,3,…, 3 = 0.5,2,0.5,2,…  (all binary-exact)
@@ -133,6 +141,17 @@ func c07Check(c *mc.Ctx, cs c07Case) {
 	rg := []int{-1, -1, -1, -1}
 	if cs.Ranges != nil {
 		rg = cs.Ranges
+	}
+	if len(cs.Prior) > 0 {
+		pal, perr := mkAlign(align.NUCLEOTIDS, namedRows(cs.Prior...))
+		if perr != nil {
+			c.Fatal("cannot build prior alignment %v: %v", cs.Prior, perr)
+			return
+		}
+		if pn, msg := mc.Guard(func() { dna.DistMatrix(pal, nil, m, -1, -1, -1, -1, cs.Alpha > 0, cs.Alpha, 1) }); pn {
+			viol("panic/"+mc.PanicSite(msg), "on the earlier alignment: "+msg)
+			return
+		}
 	}
 	var mat [][]float64
 	pn, msg := mc.Guard(func() {
